@@ -431,7 +431,7 @@ func formatGB(buf *strings.Builder, gb float32) {
 	if gb >= 1<<40 {
 		// Every float32 this large is a whole number, and multiplying by
 		// 1024 below could overflow.
-		if _, err := buf.Write(strconv.AppendFloat(nil, float64(gb), 'f', -1, 32)); err != nil {
+		if _, err := buf.Write(strconv.AppendFloat(nil, float64(gb), 'g', -1, 32)); err != nil {
 			panic(err)
 		}
 		return
